@@ -1,5 +1,6 @@
 import Rie.Proofs.Sys
 import Rie.Proofs.SysBarrier
+import Rie.Proofs.SysBarrier2
 import Rie.Props.Tables
 
 /-!
@@ -180,5 +181,57 @@ example :
     s2.outs = ["a.register=200,meta=ok"] ∧ s3.outs = ["b.register=200,meta=ok", "sup exec:runtime-1"] ∧
     s4.outs = [] ∧ s5.outs.contains "rt.next=200,id#1,body=h,arn=ok,ctx=ctx0" = true ∧
     s5.outs.contains "a.next=200,INVOKE,id#1,arn=ok,trace" = true := by decide
+
+
+/-- **Initialisation completes only after every accepted extension has asked for its next event —
+    whole runs.** `asked` is a ghost bit of the model's agents, set exactly when the agent's first
+    `next` walks the init flow's agents-ready gate and the gate counts the arrival (`runAgInstrs`).
+    From any initial configuration (no agents, fresh gate, init not done, orchestrator idle; any
+    extension files, timeout, mode), after any sequence of ops — registrations in any order, polls,
+    error reports, exits, launch failures, invocations, timeouts, resets, shutdowns, restores, every
+    timer firing — under any scheduler choices:
+    * the gate's arrivals always equal the number of agents that have asked;
+    * an agent that has not made its first `next` (`Started`, `Registered`) has not asked;
+    * whenever the init is done (`initDone`, set only when the orchestrator has passed the gate; the
+      first invocation of a generation is dispatched only then, `C03_dispatch_needs_init_done`),
+      registration is closed, the gate expects exactly the existing agents, and EVERY agent —
+      external and internal — has asked for its next event.
+    Invariant `Rie.Sys.B2Inv`, `Rie/Proofs/SysBarrier2.lean` (one lemma per model function; the
+    orchestrator closes registration and sets the expected count in one move, `b2invO_orchResume`).
+    The runtime's own arrival is the step-level `C03_registration_closed` (the orchestrator reaches
+    the agents gate only through the runtime's first `next`). -/
+theorem C03_init_done_after_everyone_asked (s0 : State) (h0 : InitialB2 s0) (ops : List (Nat × Op)) :
+    let s := (run s0 [] ops).1
+    s.initFlow.agentReady.arrived = (s.agents.filter (·.asked)).length ∧
+    (∀ a ∈ s.agents, (a.st = .started ∨ a.st = .registered) → a.asked = false) ∧
+    (s.initDone = true →
+      s.regOn = false ∧ s.initFlow.agentReady.count = s.agents.length ∧ ∀ a ∈ s.agents, a.asked = true) := by
+  have hA : AInv s0 := by show AInvL s0.agents; rw [h0.agents]; exact ⟨by simp, by simp⟩
+  obtain ⟨_, i⟩ := ab2inv_run s0 [] ops hA (b2inv_initial s0 h0)
+  refine ⟨i.arr, ?_, ?_⟩
+  · intro a ha hst
+    apply i.fresh a ha
+    rcases hst with h | h <;> simp [early, h]
+  · intro hd
+    obtain ⟨d1, d2, _⟩ := i.done hd
+    exact ⟨d1, d2, all_asked_of_done i hd⟩
+
+/-- an invocation request that finds the init not done does not dispatch: it runs the init first
+    (inline), and only its successful end — behind the gate — continues to the dispatch -/
+theorem C03_dispatch_needs_init_done (s : State) (k c : Nat) (h : String) (hnd : s.initDone = false) :
+    startHandler s (.invoke k c h) =
+      startInit { s with curInv := some (k, c, h),
+                         flights := s.flights.map fun f => if f.g4 == .waitMutex then { f with g4 := .running } else f } .invoke := by
+  simp [startHandler, hnd]
+
+-- non-vacuity: two extensions (one external, one internal) and the runtime; the init is done only
+-- when the last of them has asked, whatever the order
+example :
+    let s0 : State := { extFiles := ["a"] }
+    let pre := [(0, Op.invoke 0 1 "h"), (0, .register "a" [.invoke] ""), (0, .register "i0" [.invoke] ""), (0, .rtNext)]
+    let s1 := (run s0 [] (pre ++ [(0, .agNext "a" "")])).1
+    let s2 := (run s0 [] (pre ++ [(0, .agNext "a" ""), (0, .agNext "i0" "")])).1
+    s1.initDone = false ∧ s1.agents.map (·.asked) = [true, false] ∧
+    s2.initDone = true ∧ s2.agents.map (·.asked) = [true, true] ∧ s2.initFlow.agentReady.arrived = 2 := by decide +kernel
 
 end Rie.Props.C03
